@@ -169,6 +169,21 @@ func (c *Ctx) Finish() int {
 			known[f.Rule+"|"+f.Key] = f
 		}
 	}
+	// rules iterate maps: order the obligations so that the evidence file (samples,
+	// violation list) is the same on every run of the same tree
+	sort.SliceStable(c.Obls, func(i, j int) bool {
+		a, b := c.Obls[i], c.Obls[j]
+		if a.Rule != b.Rule {
+			return a.Rule < b.Rule
+		}
+		if a.Key != b.Key {
+			return a.Key < b.Key
+		}
+		if a.Cfg != b.Cfg {
+			return a.Cfg < b.Cfg
+		}
+		return a.Pos < b.Pos
+	})
 	var viol, knownHit []Obl
 	discharged := 0
 	perRule := map[string]int{}
